@@ -107,7 +107,7 @@ def _gen_doc(rng, tier, want_fault=None):
     if fault and fault["kind"] == "extra-param":
         fault["pos"] = rng.randint(0, 6)
     doc = {"kind": "model", "model": model, "order": order, "argseed": rng.randrange(1 << 20), "layout": lay,
-           "fault": fault}
+           "fault": fault, "bad_data": fault is None and rng.random() < 0.4}
     r = rng.random()
     if r < 0.06:
         # plug-in producer whose finished value does not match its declared kind: noticed when a later consumer is cleaned
@@ -196,7 +196,8 @@ def generate(prop, rng, index, tier):
         elif r < 0.62:
             ops.append(["PARSE_BAD", rng.randrange(nparsers), d,
                         {"op": rng.choice(["delete", "unbalance-open", "unbalance-close", "quote-open", "garbage-char",
-                                           "duplicate"]), "tok": rng.randrange(10000), "tok2": rng.randrange(10000)}])
+                                           "duplicate", "string-for-command", "string-for-command"]),
+                         "tok": rng.randrange(10000), "tok2": rng.randrange(10000)}])
         elif r < 0.84:
             ops.append(["LOAD", d])
         elif r < 0.855:
@@ -406,6 +407,37 @@ def execute(sc):
                 k = op[1] % len(parsers)
                 text, ledger, nodes, info = rendered[op[2] % len(rendered)]
                 doc = sc["docs"][op[2] % len(rendered)]
+                if op[0] == "PARSE_BAD" and op[3]["op"] == "string-for-command":
+                    # a quoted string that spans lines stands where a command name belongs: the syntax error is about that
+                    # token, which starts on the line of the command
+                    ci = op[3]["tok"] % len(ledger) if ledger else None
+                    if ci is None:
+                        continue
+                    eol_ = doc["layout"].get("eol") or "\n"
+                    starts = [0] + [m_.end() for m_ in re.finditer(r"\r\n|\r|\n", text)] + [len(text)]
+                    li = ledger[ci]["line"] - 1
+                    if li + 1 >= len(starts):
+                        continue
+                    new_line, nsub = re.subn(r"\b%s\b(\s*\()" % re.escape(nodes[ci]["cmd"]),
+                                             lambda m_: '"two' + eol_ + 'lines"' + m_.group(1),
+                                             text[starts[li]:starts[li + 1]], count=1)
+                    if not nsub:
+                        continue
+                    exc_ = None
+                    try:
+                        parsers[k].parse(text[:starts[li]] + new_line + text[starts[li + 1]:])
+                    except SimAbort:
+                        raise
+                    except Exception as e_:  # noqa
+                        exc_ = e_
+                    hist[k].append("bad:syntax" if isinstance(exc_, SyntaxError) else "bad:other")
+                    log.emit("parse-bad", parser=k, outcome=type(exc_).__name__ if exc_ else "parsed", what="string-for-command")
+                    res.probe("syntax error at a token that spans lines")
+                    ln = getattr(exc_, "lineno", None) if isinstance(exc_, SyntaxError) else None
+                    if ln is not None and ln != ledger[ci]["line"]:
+                        res.violate("C11.syntax", "C11.syntax wrong-lineno multi-line-token",
+                                    "SyntaxError carries line %r; the offending string starts on line %d" % (ln, ledger[ci]["line"]))
+                    continue
                 if op[0] == "PARSE_BAD":
                     bad_text = mf.corrupt_text(text, op[3])
                     try:
@@ -582,6 +614,32 @@ def _direct(op, log, res, Program, MPilotError):
                     "%s from a directly constructed command carries line %r (true: %r)" % (want, ln, sorted(lines)))
 
 
+def _api_addition(program, nodes, res, log, MPilotError):
+    """A command added from Python to a program loaded from a file, with an undeclared parameter that holds a command
+    object: the error is about the added command (whose line the caller states), not about the referenced one."""
+    ref = next((n["name"] for n in nodes if n.get("name") in program.commands and n["cmd"] not in ("EEMSWrite", "PrintVars")), None)
+    cls = program.find_command_class("Copy")
+    if ref is None or cls is None:
+        return
+    stated = 9000 + len(nodes)
+    try:
+        program.add_command(cls, "zz_added", {"InFieldName": ref, "Bogus": program.commands[ref]}, lineno=stated)
+        exc = None
+    except SimAbort:
+        raise
+    except Exception as e:  # noqa
+        exc = e
+    log.emit("api-addition", exc=type(exc).__name__ if exc else None)
+    res.probe("command with an undeclared parameter added through the API to a loaded program")
+    if isinstance(exc, MPilotError) and type(exc).__name__ == "NoSuchParameter":
+        ln = getattr(exc, "lineno", None)
+        if ln is not None and ln != stated:
+            res.violate("C11.error", "C11.error wrong-lineno api-addition NoSuchParameter",
+                        "NoSuchParameter for a command added with lineno=%d carries line %r (the line of the command the "
+                        "parameter refers to?)" % (stated, ln))
+    program.commands.pop("zz_added", None)
+
+
 def _check_command_lines(program, ledger, nodes, doc, res, eol):
     """Every command object of a loaded program carries the line its command starts on."""
     if doc.get("v2_target"):
@@ -607,6 +665,15 @@ def _load(sc, route, doc, text, ledger, nodes, info, log, res, Program, MPilotEr
     model = doc["model"]
     fault = doc.get("fault")
     files = {model["table"]["path"]: modelgen.csv_text(model["table"])}
+    if doc.get("bad_data") and not fault:
+        # a row of the data table is broken: whichever read meets it first reports it - with no line, or with a line of
+        # a read command, never with a line of the data file
+        rows = files[model["table"]["path"]].split("\n")
+        k_ = 1 + (len(nodes) % max(1, len(rows) - 2)) if len(rows) > 2 else 1
+        if len(rows) > k_ and rows[k_]:
+            rows[k_] = ",".join("n/a" for _ in rows[k_].split(","))
+            files[model["table"]["path"]] = "\n".join(rows)
+            fault = {"kind": "data-bad-row"}
     eol = "crlf" if doc["layout"].get("eol") == "\r\n" else "lf"
     if route == "CLI":
         files[mf.MODEL_PATH] = text
@@ -621,6 +688,8 @@ def _load(sc, route, doc, text, ledger, nodes, info, log, res, Program, MPilotEr
                 else:
                     program = Program.from_source(text, working_dir=mf.WORK)
                 _check_command_lines(program, ledger, nodes, doc, res, eol)
+                if not fault and not doc.get("bad_data"):
+                    _api_addition(program, nodes, res, log, MPilotError)
                 if fault and fault.get("param") == "Metadata" and fault["kind"] == "wrong-kind" and \
                         sum(map(ord, fault["target"])) % 2 == 0:
                     # the client reads the metadata of the command before (instead of) running the program
@@ -642,7 +711,14 @@ def _load(sc, route, doc, text, ledger, nodes, info, log, res, Program, MPilotEr
     if not fault:
         res.probe("%s of an unfaulted model" % route)
         return
-    al = allowed_lines(doc, ledger, nodes, info)
+    if fault["kind"] == "data-bad-row":
+        lines_ = set()
+        for n_, l_ in zip(nodes, ledger):
+            if n_["cmd"] == "EEMSRead":
+                lines_ |= set(range(l_["line"], l_["end_line"] + 1))
+        al = (lines_, True, "none or a line of a read command %s" % sorted(lines_))
+    else:
+        al = allowed_lines(doc, ledger, nodes, info)
     if al is None:
         return
     lines, none_ok, desc = al
